@@ -2,6 +2,7 @@
 // Unit entry_count: entry::{fragment_target_count, location_target_count}: the number of colour targets a
 // fragment entry helper asks for is exactly what is needed to address every @location the shader writes.
 #![feature(allocator_api)]
+#![recursion_limit = "4096"]
 #![allow(unused_imports, unused_variables, unused_mut, dead_code, unused_braces, unused_parens)]
 use vstd::prelude::*;
 use vstd::std_specs::iter::IteratorSpec;
